@@ -83,12 +83,17 @@ Proof. apply repeat_length. Qed.
 Lemma nth_error_known d i : nth_error (known d) i = option_map (@Some Z) (nth_error d i).
 Proof. apply nth_error_map. Qed.
 
+Lemma nth_error_new_array n i : nth_error (new_array n) i = if i <? n then Some None else None.
+Proof. apply nth_error_repeat_if. Qed.
+
 (* ---- the tactics ---------------------------------------------------------------------- *)
 
 Ltac len :=
   repeat first
     [ rewrite app_length | rewrite known_length | rewrite new_array_length | rewrite repeat_length
     | rewrite map_length
+    | rewrite firstn_length
+    | rewrite skipn_length
     | rewrite splice_length by (len; lia)
     | rewrite slice_length by (len; lia)
     | progress cbn [length] ].
@@ -99,6 +104,7 @@ Ltac nth_norm :=
     | rewrite nth_error_splice by (len; lia)
     | rewrite nth_error_app_if
     | rewrite nth_error_repeat_if
+    | rewrite nth_error_new_array
     | rewrite nth_error_map
     | rewrite nth_error_firstn_if
     | rewrite nth_error_skipn_add
